@@ -143,7 +143,8 @@ def read_at_contract(key, handler, code, sub, ks, note):
         raises={hfp.HfpProtocolError: lambda self, data, old, ghost: [answered(old, ghost), ghost.malformed]},
         invariants=invs,
         decreases=dec,
-        modifies=['self.*', 'ghost.lines', 'ghost.finals', 'ghost.ncmd'],
+        # (fields outside the model that handlers assign are uninterpreted in the skeleton profile anyway)
+        modifies=['self.read_buffer', 'self.supported_hf_features', 'self.cme_error_enabled', 'ghost.lines', 'ghost.finals', 'ghost.ncmd'],
         inline=['AgProtocol._on_*', 'AgProtocol.send_*', 'AgProtocol.supports_*'],
         stubs=AG_STUBS,
         native_setup=_native_ag,
